@@ -34,6 +34,13 @@ JDomain ==
   \cup Lists(Mid, 2) \cup Maps({<<98>>, <<97, 97>>, <<47>>}, Mid, 2) \cup Maps(JKeys, JTiny, 2)
   \cup {MapV(<<SLASH>>, <<MapV(<<BYTESKEY>>, <<x>>)>>) : x \in JSmall}      \* the second reserved shape and its neighbours
   \cup {MapV(<<SLASH, <<97>>>>, <<Scalar("string", <<97>>), IntV(0, <<1>>)>>)}  \* two entries: not reserved
+  \* containers in the places where the reserved shapes hold scalars (the decoder's look-ahead has to hand them back)
+  \cup {MapV(<<SLASH>>, <<MapV(<<BYTESKEY>>, <<x>>)>>) : x \in {ListV(<<IntV(0, <<1>>), IntV(0, <<2>>)>>), ListV(<<>>),
+                                                                MapV(<<>>, <<>>), MapV(<<<<97>>>>, <<ListV(<<NullV>>)>>)}}
+  \cup {MapV(<<SLASH>>, <<x>>) : x \in {ListV(<<Scalar("string", <<97>>)>>), ListV(<<>>), MapV(<<>>, <<>>),
+                                       MapV(<<BYTESKEY, <<97>>>>, <<Scalar("string", <<>>), NullV>>),
+                                       MapV(<<<<97>>>>, <<MapV(<<SLASH>>, <<IntV(0, <<1>>)>>)>>)}}
+  \cup {ListV(<<MapV(<<SLASH>>, <<MapV(<<BYTESKEY>>, <<ListV(<<IntV(0, <<1>>)>>)>>)>>), IntV(0, <<2>>)>>)}
 
 RECURSIVE Weight(_)
 Weight(x) == Len(x.a) + Len(x.vs) * 3 +
